@@ -75,7 +75,19 @@ func emit(fields ...string) {
 	defer emitMu.Unlock()
 	out.WriteString(strings.Join(fields, "\t"))
 	out.WriteByte('\n')
+	if len(fields) > 1 && fields[1] == "HANG" && fields[0] == "c07" {
+		// requests that never return leave goroutines and locks behind, and every further wait costs its
+		// whole deadline: two such reports settle the run (the trace so far is the replay)
+		if hangs++; hangs >= 2 {
+			out.Flush()
+			writeStats(statsPath)
+			os.Exit(0)
+		}
+	}
 }
+
+var hangs int
+var statsPath string
 
 // stats collected for the evidence file
 var stats = map[string]int{}
